@@ -16,7 +16,7 @@ RULE = ("one case = one run (callback recording deep copies of every state) opti
         "trial of its line search, or a restart chain of length >= 2; distinct = distinct specs")
 ASSUMPTIONS = ["harness closures are pure; the scaling factor is the value returned by the harness's scaler",
                "for finite-difference modes fun, nfev and njev (= number of differencing-routine invocations, counted by rebinding its module-level name) are compared; jac is an approximation and is not"]
-FAMS = gen.ALL_FAMILIES + ("flat",)
+FAMS = gen.ALL_FAMILIES + ("flat", "qp_subnormal")
 
 
 def floors(tier):
